@@ -322,9 +322,7 @@ def compileRD (cfg : Cfg) (a : RDArgs) : List Micro :=
       if a.srcStart.bad ∨ a.srcEnd.bad ∨ a.dstStart.bad ∨ a.dstEnd.bad ∨ a.srcStart.v < 0
           ∨ a.srcEnd.v < 0 ∨ a.dstStart.v < 0 ∨ a.dstEnd.v < 0 then [.fail .valueErr]
       else
-        let md : Int :=
-          if cfg.maxVolume < (a.multiDisp : Rat) * a.vol.q then (cfg.maxVolume / a.vol.q).floor
-          else a.multiDisp
+        let md : Int := adaptMultiDisp cfg.maxVolume a.vol.q a.multiDisp
         [.emit (.rd { srcLabel := a.srcLabel, srcId := a.srcRackId, srcType := a.srcRackType,
                       srcStart := a.srcStart.v, srcEnd := a.srcEnd.v, dstLabel := a.dstLabel,
                       dstId := a.dstRackId, dstType := a.dstRackType, dstStart := a.dstStart.v,
